@@ -131,7 +131,7 @@ theorem matchNs_comp (u : List Char) (hu : ':' ∉ u) (X : List Char) :
     | nil =>
       -- the name's component is shorter
       rcases hT with rfl | ⟨Y, rfl⟩
-      · simp only [List.cons_append, List.nil_append, matchNs, reduceCtorEq, false_and, if_false, List.append_nil]
+      · simp only [List.cons_append, matchNs, reduceCtorEq, false_and, if_false, List.append_nil]
         rw [backUp_comp pre hpre rb0 [] hrb]
         simp only [List.cons_append] at hclose
         rw [hclose]
@@ -153,7 +153,7 @@ theorem matchNs_comp (u : List Char) (hu : ':' ∉ u) (X : List Char) :
           · exact hpre h
           · simp at h; exact hp h.symm
         have := ih hu' X v hv' T rb0 (pre ++ [p]) hT hrb hpre'
-        simp only [List.reverse_append, List.reverse_cons, List.reverse_nil, List.nil_append, List.singleton_append,
+        simp only [List.reverse_append, List.reverse_cons, List.reverse_nil, List.nil_append,
           List.cons_append, List.append_assoc] at this ⊢
         rw [this]
         simp only [List.cons.injEq, true_and]
@@ -308,7 +308,6 @@ theorem fold_ref : ∀ (qs : List QName) (lines : List String) (P : List Comp), 
     simp only [List.map_cons, List.foldl_cons, QName.str]
     rw [fwdStep_ref lines P q.ns q.cls hP (hq q (by simp)).1 (hq q (by simp)).2]
     have := fold_ref qs (lines ++ refLines P q.ns q.cls) q.ns (hq q (by simp)).1 (fun x hx => hq x (by simp [hx]))
-    simp only [QName.str] at this
     rw [this]
     simp [refAll, List.append_assoc]
 
